@@ -8,7 +8,7 @@ CLAIMED = {
    text="Coq theorems over the month model with the table regenerated from the running module (spellings of every case "
         "variant and zero padding, all 9 compositions, non-months unchanged, no raise), tied to /repo by exhaustive "
         "differential correspondence through the three middleware classes and by an independent Python oracle of the property.",
-   note="CPython's str.lower/isdecimal/int are oracles (ASCII instances executable; other inputs checked by the Python oracle only); "
+   note="the theorems also hold with CPython's str.lower and int() as ABSTRACT oracles (C15_gen_*: assumed only that lower maps the 24 table rows as ASCII lower does and keeps decimal strings decimal; nothing is assumed of int(), which may refuse a string); proving them exposed F18 (digit-limit ValueError, repaired); True as a month value (isinstance(True, int)) is modelled faithfully and excluded from the compose/others theorems by an explicit premise (C15_bool_true); the executable correspondence runs the ASCII instances (C15_gen_instance), other inputs go through the Python oracle only; "
         "model hand-written, tied by correspondence; extraction cross-checked by vm_compute",
    technique="Coq proof (table facts by vm_compute at every build) + differential correspondence via extracted model"),
 }
